@@ -89,7 +89,7 @@ pub fn strategy(big: bool) -> BoxedStrategy<Input> {
             any::<u32>().prop_map(Prop::MessageExpiry),
             "[a-z/]{0,8}".prop_map(Prop::ContentType),
             ("[a-z]{0,5}", "[a-z]{0,5}").prop_map(|(k, v)| Prop::UserProperty(k, v)),
-            (1u32..100000).prop_map(Prop::SubscriptionId),
+            prop_oneof![3 => 1u32..100000, 1 => prop::sample::select(vec![127u32, 128, 16_383, 16_384, 2_097_151, 2_097_152, 268_435_455])].prop_map(Prop::SubscriptionId),
         ],
         0..5,
     )
